@@ -48,7 +48,8 @@ TRUSTED = [
     "model of s-like orbitals on symmetric site orbits, Ham and AA); a wrong construction shows up as a failed "
     "System.check_symmetry / eigenvalue test and is reported as an infrastructure error, never as a violation",
     "tolerance of the oracle: 1e-9 relative to the larger of max|full result| and max|same quantity in the "
-    "unsymmetrised companion model| (rounding of ~1e3 k-points amplified by 1/gap^2 in Berry-type quantities); "
+    "unsymmetrised companion model|; models are drawn until all bands on the grid are exactly degenerate (symmetry) or "
+    ">= 0.05 apart, so rounding is amplified by at most eps*(bandwidth/0.05)^4 ~ 3e-10 (observed <= 1e-12); "
     "symmetry-forbidden components are exactly 0 on the symmetrised side and rounding noise on the other",
 ]
 RULE = ("symmetric models: cubic / tetragonal / hexagonal P lattices, random generator subsets with and without time "
@@ -266,12 +267,13 @@ def validate_symmetric(ctx, s, G, case):
 # ------------------------------------------------------------------------------------------------
 # real calculators
 
-def real_calculators(rng, tier_full):
+def real_calculators(rng, tier_full, Ef=None, om=None):
     from wannierberri import calculators as calc
     st, dy, tb = calc.static, calc.dynamic, calc.tabulate
-    nE = 3
-    Ef = np.linspace(-0.9, 0.8, nE)
-    om = np.array([0.3, 1.1])
+    if Ef is None:
+        Ef = np.linspace(-0.9, 0.8, 3)
+    if om is None:
+        om = np.array([0.3, 1.1])
     sm = dict(save_mode="")
     internal = {"external_terms": False}
     pool = {
@@ -344,6 +346,33 @@ def run_pair(system, div, fft, make, data_k_class=None, irr_only=False):
     return r1, r0, nirr
 
 
+MIN_GAP = 0.05
+
+
+def grid_gaps(system, div, fft):
+    """band gaps on the full grid (cheap Energy-only tabulation)"""
+    import wannierberri as wb
+    from wannierberri import calculators as calc
+    with quiet():
+        grid = wb.Grid(system, NKdiv=div, NKFFT=fft)
+        r = wb.run(system, grid, {"tabulate": calc.TabulatorAll({"Energy": calc.tabulate.Energy()}, mode="grid",
+                                                                   save_mode="")},
+                   use_irred_kpt=False, symmetrize=False, parallel=False, print_progress_step_time=1e9)
+    E = r.results["tabulate"].results["Energy"].data
+    return gap_analysis(r) + (E,)
+
+
+def energies_for_calculators(E):
+    """Fermi levels inside the bands and frequencies at actual interband transition energies of the grid, so that no
+    quantity vanishes identically for trivial reasons (empty / full bands, no transitions)"""
+    Es = np.sort(E.reshape(-1))
+    Ef = np.quantile(Es, [0.25, 0.5, 0.8])
+    trans = np.array([abs(E[:, m] - E[:, n]) for n in range(E.shape[1]) for m in range(n + 1, E.shape[1])]).reshape(-1)
+    trans = trans[trans > 0.05]
+    om = np.quantile(trans, [0.3, 0.75]) if trans.size else np.array([0.3, 1.1])
+    return np.round(Ef, 3), np.round(om, 3)
+
+
 def gap_analysis(r0, degen_thresh=1e-4):
     """from the tabulated energies of the full run: (has exactly degenerate bands on the grid, smallest gap that the
     calculators treat as non-degenerate, number of gaps within a factor 3 of the degeneracy threshold)"""
@@ -396,11 +425,12 @@ def compare_results(ctx, r1, r0, scales, case, kf=None, tolrel=1e-9, kf_by_quant
     return worst
 
 
-def companion_scales(system0, fft, make):
-    """order of magnitude of every quantity in the unsymmetrised companion (one K-point, same FFT grid)"""
+def companion_scales(system0, div, fft, make):
+    """order of magnitude of every quantity in the unsymmetrised companion model on the same k-points
+    (evaluated as ONE K-point whose FFT grid is the whole grid: cheap)"""
     import wannierberri as wb
     with quiet():
-        grid = wb.Grid(system0, NKdiv=(1, 1, 1), NKFFT=fft)
+        grid = wb.Grid(system0, NKdiv=(1, 1, 1), NKFFT=tuple(int(a * b) for a, b in zip(div, fft)))
         r = wb.run(system0, grid, make(), use_irred_kpt=False, symmetrize=False, parallel=False,
                    print_progress_step_time=1e9)
     sc = {}
@@ -448,17 +478,33 @@ def oracle_physical(ctx, scale):
             seeds = [(0, 0, 0), (Fr(1, 2), Fr(1, 2), Fr(1, 2))] if famname != "hex" else [(Fr(1, 3), Fr(2, 3), 0)]
         case = dict(family=famname, lattice=fam.name, real_lattice=fam.A, generators=names, TR=[bool(t) for t in trs],
                     site_seeds=[[str(x) for x in s] for s in seeds])
-        sys_sym, sys0, G, sites = build_symmetric_system(rs, fam, names, trs, seeds)
+        # draw hoppings until the bands on the grid are either exactly degenerate (symmetry) or at least MIN_GAP apart:
+        # then rounding is amplified by at most eps * (bandwidth / MIN_GAP)^4 ~ 3e-10 and a flat 1e-9 tolerance is sharp
+        accepted = False
+        for attempt in range(8):
+            sys_sym, sys0, G, sites = build_symmetric_system(rs, fam, names, trs, seeds)
+            if attempt == 0:
+                validate_symmetric(ctx, sys_sym, G, case)
+                Ns = [kmat_exact(fam, R, tr) for R, tr in G]
+                for _ in range(20):   # the known-finding grid class is witnessed elsewhere
+                    div, fft = pick_grid(rng, sys_sym.pointgroup, famname, ctx.n(200, 400), min_div=4)
+                    if not sheared_aniso(Ns, fft):
+                        break
+            degenerate, gmin, near, Egrid = grid_gaps(sys_sym, div, fft)
+            if near == 0 and gmin >= MIN_GAP:
+                accepted = True
+                break
+        ctx.count("oracle.physical.hopping_redraws", attempt)
+        if not accepted:
+            ctx.count("oracle.physical.no_well_separated_model_found")
+            continue
         validate_symmetric(ctx, sys_sym, G, case)
         has_tr = any(tr for _, tr in G)
         pure_tr = any(tr and np.abs(R - np.eye(3)).max() < 1e-9 for R, tr in G)
         kind = "gray(TR)" if pure_tr else ("magnetic" if has_tr else "noTR")
-        Ns = [kmat_exact(fam, R, tr) for R, tr in G]
-        for _ in range(20):      # the known-finding grid class is witnessed elsewhere: spend the real calculators on the rest
-            div, fft = pick_grid(rng, sys_sym.pointgroup, famname, ctx.n(200, 400), min_div=4)
-            if not sheared_aniso(Ns, fft):
-                break
-        make, names_c, tnames = real_calculators(rng, ctx.tier == "thorough" and it % 3 == 0)
+        Ef, om = energies_for_calculators(Egrid)
+        make, names_c, tnames = real_calculators(rng, ctx.tier == "thorough" and it % 3 == 0, Ef, om)
+        case.update(Efermi=Ef, omega=om)
         case.update(NKdiv=div, NKFFT=fft, num_wann=sys_sym.num_wann, group_order=len(G), kind=kind,
                     calculators=names_c, tabulators=tnames)
         kf = KF_SHEAR if sheared_aniso(Ns, fft) else None
@@ -467,23 +513,14 @@ def oracle_physical(ctx, scale):
         ctx.count(f"oracle.physical.order={len(G)}")
         ctx.count("oracle.physical.grid=" + ("anisotropic" if len(set(fft)) > 1 or len(set(div)) > 1 else "isotropic"))
         with ctx.attempt("run() on a symmetric model", case, kf=kf):
-            scales = companion_scales(sys0, fft, make)
+            scales = companion_scales(sys0, div, fft, make)
             r1, r0, nirr = run_pair(sys_sym, div, fft, make)
             ntot = int(np.prod(div))
             ctx.case(signature=("phys", famname, tuple(names), tuple(trs), div, fft, tuple(names_c)),
                      nontrivial=len(G) >= 2 and nirr < ntot)
             ctx.count("oracle.physical.reduction=" + ("yes" if nirr < ntot else "none"))
-            degenerate, gmin, near = gap_analysis(r0)
-            # rounding: eps * (bandwidth / smallest non-degenerate gap)^4 for the second derivatives of Berry-type
-            # quantities (eigenvector error eps/gap, three more energy denominators); never below 1e-9
-            bw = 2.0
-            tolrel = max(1e-9, 1e-14 * (bw / gmin) ** 4)
+            tolrel = 1e-9
             ctx.count("oracle.physical.degenerate_bands_on_grid=" + ("yes" if degenerate else "no"))
-            if near or tolrel > 1e-6:
-                # a gap within a factor 3 of degen_thresh (classification not stable under rounding) or so small that
-                # rounding swamps the comparison: such a model cannot discriminate, it is counted and skipped
-                ctx.count("oracle.physical.skipped_near_threshold_gap")
-                continue
             kfq = {n: KF_DEGEN for n in GAUGE_DEPENDENT_AT_DEGENERACY} if degenerate else {}
             case.update(min_nondegenerate_gap=gmin, degenerate_bands_on_grid=degenerate, tolerance_rel=tolrel)
             worst = compare_results(ctx, r1, r0, scales, case, kf=kf, tolrel=tolrel,
